@@ -553,10 +553,25 @@ func (s *Server) Connect(c Client) (AcceptResult, string) {
 	var cert *tls.Certificate
 	var err error
 	switch c.Kind {
-	case "auth":
+	case "auth", "mixedFA", "mixedAF":
 		protos, _, err = s.BuildAuthProtos(c)
 		if err != nil {
 			return AcceptResult{Kind: "harness-error", Err: err.Error()}, ""
+		}
+		if c.Kind != "auth" {
+			// a self-consistent but unauthorised fetch request in the same ClientHello
+			info, ierr := s.W.BuildInfo(world.FetchSpec{K: "kx", E: "e1", Nonce: "n1"})
+			if ierr != nil {
+				return AcceptResult{Kind: "harness-error", Err: ierr.Error()}, ""
+			}
+			freq, _ := s.W.SignInfo(info, "kx")
+			fb, _ := proto.Marshal(freq)
+			fp, _ := nodetls.BreakIntoNextProtos(nodeenrollment.FetchNodeCredsNextProtoV1Prefix, base64.RawStdEncoding.EncodeToString(fb))
+			if c.Kind == "mixedFA" {
+				protos = append(append([]string{}, fp...), protos...)
+			} else {
+				protos = append(protos, fp...)
+			}
 		}
 		cert, err = s.ClientCert(c)
 	case "base":
